@@ -108,6 +108,9 @@ def generate(streams, tier):
     if mode == "purity":
         world = W.gen_bn(streams, max_n=5, min_n=2, max_joint=1024, max_parents=2, connected=True, allow_card1=False, force_str_labels=r.random() < 0.7,
                          state_modes=[("default", 2), ("str", 3), ("int_sorted", 2)])
+        if r.random() < 0.25:
+            # root tables whose columns sum to slightly less than one: the samplers repair such weights on the fly - in a copy
+            W.round_roots(world, streams.s("rounding"))
         config = W.gen_bn_config(streams, world)
         rw = streams.s("workload")
         rows = W.gen_rows(streams.s("data"), world, rw.randint(15, 50))
